@@ -19,21 +19,15 @@ EM = 'chi/_error_models.py'
 PR = 'chi/_predictive_models.py'
 
 # ---- C19
-mut('C19-01-no-protocol-reattach-on-sens-switch', MM,
-    "        if new_sim:\n            self._simulator.set_protocol(self._dosing_regimen)\n",
-    "        if new_sim and not enabled:\n            self._simulator.set_protocol(self._dosing_regimen)\n")
 mut('C19-02-loglik-does-not-copy-mechanistic-model', LP,
     "        # Copy mechanistic model\n        mechanistic_model = mechanistic_model.copy()\n\n        # Set outputs\n        if outputs is not None:\n            mechanistic_model.set_outputs(outputs)\n\n        n_outputs = mechanistic_model.n_outputs()\n        if len(error_model) != n_outputs:",
     "        # Copy mechanistic model\n        if outputs is not None:\n            mechanistic_model = mechanistic_model.copy()\n\n        # Set outputs\n        if outputs is not None:\n            mechanistic_model.set_outputs(outputs)\n\n        n_outputs = mechanistic_model.n_outputs()\n        if len(error_model) != n_outputs:")
-mut('C19-03-loglik-shallow-copies-error-models', LP,
+mut('C19-03-loglik-does-not-copy-error-models', LP,
     "        error_model = [\n            copy.deepcopy(em) for em in error_model]\n",
-    "        error_model = [\n            copy.copy(em) for em in error_model]\n")
-mut('C19-04-reduced-mech-writes-into-argument', MM,
-    "            self._fixed_params_values[\n                ~self._fixed_params_mask] = parameters\n            parameters = self._fixed_params_values\n\n        if self._has_empty",
-    "            self._fixed_params_values[\n                ~self._fixed_params_mask] = parameters\n            parameters = self._fixed_params_values\n        elif isinstance(parameters, np.ndarray) and parameters.flags.writeable:\n            parameters[parameters < 0] = 0\n            parameters *= 1.0 + 1e-9\n\n        if self._has_empty")
-mut('C19-05-hier-call-modifies-parameters-in-place', LP,
-    "        # Split parameters into bottom- and top-level parameters\n        parameters = np.asarray(parameters)\n        bottom_parameters = parameters[:self._n_bottom]\n        top_parameters = parameters[self._n_bottom:]\n\n        # Broadcast pooled parameters and reshape bottom parameters to\n        # (n_ids, n_dim)\n        bottom_parameters = \\\n            self._population_model.compute_individual_parameters(\n                parameters=top_parameters,\n                eta=bottom_parameters,\n                covariates=self._covariates,\n                return_eta=True\n            )\n\n        # Compute population model score",
-    "        # Split parameters into bottom- and top-level parameters\n        parameters = np.asarray(parameters)\n        bottom_parameters = parameters[:self._n_bottom]\n        top_parameters = parameters[self._n_bottom:]\n        if parameters.flags.writeable:\n            np.abs(top_parameters, out=top_parameters)\n\n        # Broadcast pooled parameters and reshape bottom parameters to\n        # (n_ids, n_dim)\n        bottom_parameters = \\\n            self._population_model.compute_individual_parameters(\n                parameters=top_parameters,\n                eta=bottom_parameters,\n                covariates=self._covariates,\n                return_eta=True\n            )\n\n        # Compute population model score")
+    "        error_model = list(error_model)\n")
+mut('C19-04-set-state-reorders-callers-array-in-place', MM,
+    "        parameters = np.array(parameters)\n        parameters = parameters[self._original_order]\n        self._simulator.set_state(parameters)\n",
+    "        parameters = np.asarray(parameters)\n        if parameters.flags.writeable:\n            parameters[:] = parameters[self._original_order]\n        else:\n            parameters = parameters[self._original_order]\n        self._simulator.set_state(parameters)\n")
 mut('C19-06-pkpd-copy-without-protocol', MM,
     "        model = super(PKPDModel, self).copy()\n        model._simulator.set_protocol(model.dosing_regimen())\n",
     "        model = super(PKPDModel, self).copy()\n")
@@ -85,9 +79,6 @@ mut('C11-07-copy-keeps-sensitivity-flag', MM,
     "        model._simulator = myokit.Simulation(myokit_model)\n")
 
 # ---- C17
-mut('C17-01-hetero-n-hierarchical-uses-stored-n-ids', PM,
-    "        n_ids = int(n_ids)\n\n        return (0, n_ids * self._n_dim)\n",
-    "        n_ids = int(n_ids)\n\n        return (0, max(n_ids, self._n_ids) * self._n_dim)\n")
 mut('C17-02-hier-names-drop-only-first-special-dim', LP,
     "        for info in special_dims:\n            start_dim, end_dim, _, _, _ = info\n            n += names[current_dim:start_dim]\n            current_dim = end_dim\n        n += names[current_dim:]\n        names = n\n\n        # Make copies of bottom parameters and append top parameters",
     "        for info in special_dims:\n            start_dim, end_dim, _, _, _ = info\n            n += names[current_dim:start_dim]\n            current_dim = start_dim + 1\n        n += names[current_dim:]\n        names = n\n\n        # Make copies of bottom parameters and append top parameters")
